@@ -166,13 +166,16 @@ fn compile_and_extract_entry(
 
     let mut program = Program::new();
     let mut module_cache = ModuleCache::new();
+    // The top-level flow starts from nil. (`parameter_type_id` is a *type* id: register the nil
+    // type rather than passing the nil tuple's index, which as a type id would denote `never`.)
+    let parameter_type_id = program.register_type(Type::nil());
     let compilation_result = Compiler::compile(
         ast,
         &HashMap::new(),
         &mut module_cache,
         resolver,
         &mut program,
-        quiver_core::types::NIL, // parameter_type_id - use pre-registered nil type
+        parameter_type_id,
         &HashMap::new(),
         builtins,
         None, // no semantic recorder for the CLI
@@ -254,13 +257,14 @@ fn compile_command(
             };
             let mut program = Program::new();
             let mut module_cache = ModuleCache::new();
+            let parameter_type_id = program.register_type(Type::nil());
             Compiler::compile(
                 ast,
                 &HashMap::new(),
                 &mut module_cache,
                 &resolver,
                 &mut program,
-                quiver_core::types::NIL, // parameter_type_id
+                parameter_type_id,
                 &HashMap::new(),
                 &builtins,
                 None, // no semantic recorder for the CLI
